@@ -111,8 +111,12 @@ def cases(tier):
     # pulling: the later events' results must carry nothing of the failed event
     for n in (2, 3):
         for custom in ({"Obj.x": "sync", "Obj.y": "sync"}, {"Obj.x": "async", "Obj.y": "async"}):
-            for mode in ("deferred", "immediate"):
+            for mode in ("deferred", "immediate", "agen", "agen-deferred"):
                 yield {"kind": "stream", "sel": "ev { x y }", "custom": custom, "n": n, "mode": mode, "resolver": "sync", "keep_pulling": True}
+    # async-generator sources on the ordinary path too
+    for n in (0, 1, 3):
+        for mode in ("agen", "agen-deferred"):
+            yield {"kind": "stream", "sel": "ev { x y }", "custom": {"Obj.x": "async", "Obj.y": "sync"}, "n": n, "mode": mode, "resolver": "sync"}
     for name in ("two-fields", "two-fields-fragment", "typename-only", "no-subscription-resolver", "query-operation", "mutation-operation", "blocking-runtime", "threadpool-runtime"):
         yield {"kind": "refusal", "name": name}
 
@@ -156,6 +160,30 @@ class Source:
         return _event(k)
 
 
+class AgenSource:
+    """the events come from an ASYNC GENERATOR (supports aclose / athrow, unlike the class-based iterator): the
+    object handed to the library is the generator itself; this wrapper only keeps the counters"""
+
+    def __init__(self, world, loop, n, mode):
+        self.pulls = 0
+        deferred = mode == "agen-deferred"
+        outer = self
+
+        async def gen():
+            for k in range(n + 1):
+                outer.pulls += 1
+                if deferred:
+                    await loop.defer("src:%d" % k, lambda: None)
+                if k >= n:
+                    world.ev("source-end")
+                    return
+                world.event_index = k
+                world.ev("event", k)
+                yield _event(k)
+
+        self.stream = gen()
+
+
 class SourceFailure(Exception):
     """an unexpected failure of the event source itself"""
 
@@ -193,14 +221,14 @@ def _schema(custom, rk, sdl="full"):
 
             def sub(root, ctx, info, **args):
                 ctx.ev("subscribe", root, dict(args))
-                return ctx.source
+                return getattr(ctx.source, "stream", ctx.source)
 
         else:
 
             async def sub(root, ctx, info, **args):
                 ctx.ev("subscribe", root, dict(args))
                 await ctx.loop.defer("subscribe", lambda: None)
-                return ctx.source
+                return getattr(ctx.source, "stream", ctx.source)
 
         if rk != "none":
             s.register_subscription("Subscription", "ev", sub)
@@ -229,6 +257,8 @@ def _body(case, overrides, ch):
     world.loop = loop
     cls = FalsySource if case["mode"].startswith("falsy") else Source
     world.source = cls(world, loop, case["n"], case["mode"], case.get("none_at"), case.get("raise_at"))
+    if case["mode"].startswith("agen"):
+        world.source = AgenSource(world, loop, case["n"], case["mode"])
     schema = _schema(case["custom"], case["resolver"], case.get("sdl", "full"))
     dkey = (case["sel"], case.get("vardefs", ""))
     doc = _DOCS.get(dkey)
